@@ -2,7 +2,7 @@
    the iteration-order oracle, and for every order-sensitive site either an
    order-independence lemma (`…_order_independent`) or a refutation with a witness
    (`…_order_refuted`, defect D18).  Reused by C03 and C07. *)
-From Coq Require Import Lia Permutation.
+From Coq Require Import Lia Permutation Sorted.
 From Ink.Data Require Import Types InkList PathProofs.
 From Ink.Spec Require Import KeyOrder.
 Local Open Scope Z_scope.
@@ -444,3 +444,153 @@ Proof.
   repeat match goal with H : Some _ = Some _ |- _ => injection H as -> end;
   repeat split; reflexivity.
 Qed.
+
+(* ---------- stable sort: the result does not depend on the input order when no two
+   elements compare equal ---------- *)
+Section SortUnique.
+Variables (A P : Type) (proj : A -> P) (pc : P -> P -> comparison).
+Hypothesis Hpc : strict_cmp pc.
+Let cmp (a b : A) : comparison := pc (proj a) (proj b).
+Let le (a b : A) : Prop := cmp a b <> Gt.
+
+Lemma insert_by_perm : forall x l, Permutation (insert_by cmp x l) (x :: l).
+Proof.
+  induction l as [|y r IH]; cbn; [apply Permutation_refl|].
+  destruct (cmp x y); try apply Permutation_refl.
+  eapply perm_trans; [apply perm_skip, IH|apply perm_swap].
+Qed.
+
+Lemma sort_by_perm : forall l, Permutation (sort_by cmp l) l.
+Proof.
+  induction l as [|x r IH]; cbn; [apply Permutation_refl|].
+  eapply perm_trans; [apply insert_by_perm|apply perm_skip, IH].
+Qed.
+
+Lemma le_trans : forall a b c, le a b -> le b c -> le a c.
+Proof.
+  unfold le, cmp. intros a b c H1 H2.
+  destruct (pc (proj a) (proj b)) eqn:E1; [|clear H1|congruence].
+  - apply (sc_eq _ Hpc) in E1. rewrite E1. exact H2.
+  - destruct (pc (proj b) (proj c)) eqn:E2; [|clear H2|congruence].
+    + apply (sc_eq _ Hpc) in E2. rewrite <- E2, E1. discriminate.
+    + rewrite (sc_trans _ Hpc _ _ _ E1 E2). discriminate.
+Qed.
+
+Lemma insert_by_sorted : forall x l, StronglySorted le l -> StronglySorted le (insert_by cmp x l).
+Proof.
+  induction l as [|y r IH]; cbn; intros H; [repeat constructor|].
+  pose proof H as H0. apply StronglySorted_inv in H as [Hr Hall].
+  destruct (cmp x y) eqn:E.
+  - constructor; [exact H0|]. constructor; [unfold le; congruence|].
+    rewrite Forall_forall in *. intros z Hz. eapply le_trans; [|apply Hall; exact Hz]. unfold le; congruence.
+  - constructor; [exact H0|]. constructor; [unfold le; congruence|].
+    rewrite Forall_forall in *. intros z Hz. eapply le_trans; [|apply Hall; exact Hz]. unfold le; congruence.
+  - constructor; [apply IH; exact Hr|]. rewrite Forall_forall in *. intros z Hz.
+    apply (Permutation_in _ (insert_by_perm x r)) in Hz. destruct Hz as [<-|Hz]; [|apply Hall; exact Hz].
+    unfold le, cmp in *. rewrite (sc_antisym _ Hpc). unfold cmp in E. rewrite E. discriminate.
+Qed.
+
+Lemma sort_by_sorted : forall l, StronglySorted le (sort_by cmp l).
+Proof. induction l as [|x r IH]; cbn; [constructor|apply insert_by_sorted, IH]. Qed.
+
+Lemma sorted_perm_unique : forall l l', StronglySorted le l -> StronglySorted le l' ->
+  Permutation l l' -> NoDup (map proj l) -> l = l'.
+Proof.
+  induction l as [|a r IH]; intros l' Hs Hs' Hp Hnd.
+  - apply Permutation_nil in Hp. subst. reflexivity.
+  - destruct l' as [|a' r']; [apply Permutation_sym, Permutation_nil in Hp; discriminate|].
+    apply StronglySorted_inv in Hs as [Hr Hall]. apply StronglySorted_inv in Hs' as [Hr' Hall'].
+    rewrite Forall_forall in Hall, Hall'.
+    assert (Haa : a = a').
+    { assert (In a (a' :: r')) as H1 by (eapply Permutation_in; [exact Hp|left; reflexivity]).
+      assert (In a' (a :: r)) as H2 by (eapply Permutation_in; [apply Permutation_sym; exact Hp|left; reflexivity]).
+      destruct H1 as [H1|H1]; [symmetry; exact H1|]. destruct H2 as [H2|H2]; [exact H2|].
+      specialize (Hall _ H2). specialize (Hall' _ H1). unfold le, cmp in Hall, Hall'.
+      rewrite (sc_antisym _ Hpc) in Hall'.
+      destruct (pc (proj a) (proj a')) eqn:E; cbn in Hall'; try congruence.
+      apply (sc_eq _ Hpc) in E. cbn in Hnd. inversion Hnd as [|? ? Hnotin _]; subst.
+      exfalso. apply Hnotin. rewrite E. apply in_map. exact H2. }
+    subst a'. f_equal. apply IH; try assumption.
+    + eapply Permutation_cons_inv. exact Hp.
+    + cbn in Hnd. inversion Hnd; assumption.
+Qed.
+
+Theorem sort_by_order_independent : forall l l', Permutation l l' -> NoDup (map proj l) ->
+  sort_by cmp l = sort_by cmp l'.
+Proof.
+  intros l l' Hp Hnd. apply sorted_perm_unique; try apply sort_by_sorted.
+  - eapply perm_trans; [apply sort_by_perm|]. eapply perm_trans; [exact Hp|apply Permutation_sym, sort_by_perm].
+  - eapply Permutation_NoDup; [apply Permutation_map, Permutation_sym, sort_by_perm|exact Hnd].
+Qed.
+End SortUnique.
+
+Lemma Z_compare_strict : strict_cmp Z.compare.
+Proof.
+  constructor; [apply Z.compare_refl|apply Z.compare_eq|intros; apply Z.compare_antisym|].
+  intros a b c H1 H2. rewrite Z.compare_lt_iff in *. eapply Z.lt_trans; eassumption.
+Qed.
+
+(* site get_ordered_items (Display, LIST_RANGE): independent of the order when no two
+   items share both value and origin *)
+Definition value_origin (kv : listitem * Z) : Z * option text := (snd kv, it_origin (fst kv)).
+
+Lemma item_sort_cmp_lex : forall a b,
+  item_sort_cmp a b = lex_cmp Z.compare opt_text_cmp (value_origin a) (value_origin b).
+Proof.
+  intros a b. unfold item_sort_cmp, lex_cmp, value_origin. cbn.
+  destruct (snd a =? snd b) eqn:E.
+  - apply Z.eqb_eq in E. rewrite E, Z.compare_refl. reflexivity.
+  - apply Z.eqb_neq in E. destruct (snd a ?= snd b) eqn:C; try reflexivity.
+    apply Z.compare_eq in C. contradiction.
+Qed.
+
+Lemma insert_by_ext : forall A (c1 c2 : A -> A -> comparison) x l,
+  (forall a b, c1 a b = c2 a b) -> insert_by c1 x l = insert_by c2 x l.
+Proof.
+  intros A c1 c2 x l H. induction l as [|y t IH]; cbn; [reflexivity|].
+  rewrite H. destruct (c2 x y); try reflexivity. rewrite IH. reflexivity.
+Qed.
+
+Lemma sort_by_ext : forall A (c1 c2 : A -> A -> comparison) l,
+  (forall a b, c1 a b = c2 a b) -> sort_by c1 l = sort_by c2 l.
+Proof.
+  intros A c1 c2 l H. unfold sort_by. induction l as [|x r IH]; cbn [fold_right]; [reflexivity|].
+  rewrite IH. apply insert_by_ext. exact H.
+Qed.
+
+Theorem get_ordered_items_order_independent : forall oo1 oo2 l,
+  ord_ok oo1 -> ord_ok oo2 -> NoDup (map value_origin (l_items l)) ->
+  get_ordered_items oo1 l = get_ordered_items oo2 l.
+Proof.
+  intros oo1 oo2 l [H1 _] [H2 _] Hnd. unfold get_ordered_items.
+  rewrite !(sort_by_ext _ item_sort_cmp _ _ item_sort_cmp_lex).
+  apply (sort_by_order_independent _ _ value_origin _
+           (lex_cmp_strict _ _ _ _ Z_compare_strict opt_text_cmp_strict)).
+  - eapply perm_trans; [apply H1|apply Permutation_sym, H2].
+  - eapply Permutation_NoDup; [apply Permutation_map, Permutation_sym, H1|exact Hnd].
+Qed.
+
+Corollary list_display_order_independent : forall oo1 oo2 l,
+  ord_ok oo1 -> ord_ok oo2 -> NoDup (map value_origin (l_items l)) ->
+  list_display oo1 l = list_display oo2 l.
+Proof. intros. unfold list_display. rewrite (get_ordered_items_order_independent oo1 oo2) by assumption. reflexivity. Qed.
+
+(* ... refuted for two items of one declaration with the same value (LIST K = p = 1, q = 1) *)
+Definition same_value_origin_list : inklist :=
+  mkList [(mkItem (Some (T "K")) (T "p"), 1); (mkItem (Some (T "K")) (T "q"), 1)] [] [].
+
+Theorem list_display_order_refuted :
+  exists oo1 oo2 l, ord_ok oo1 /\ ord_ok oo2 /\ list_display oo1 l <> list_display oo2 l.
+Proof.
+  exists ord_id, ord_rev, same_value_origin_list. split; [apply ord_id_ok|]. split; [apply ord_rev_ok|].
+  vm_compute. discriminate.
+Qed.
+
+(* the remembered origins of a result: with CopyRaw, `a - a` forgets where it came
+   from (LIST_ALL / LIST_INVERT of it are empty); with CopyEffective it does not *)
+Lemma without_forgets_origins :
+  let a := mkList [(mkItem (Some (T "L")) (T "a"), 1)] [T "L"] [] in
+  get_origin_names ord_id a = Ok [T "L"] /\
+  get_origin_names ord_id (list_without CopyRaw a a) = Ok [] /\
+  get_origin_names ord_id (list_without CopyEffective a a) = Ok [T "L"].
+Proof. repeat split. Qed.
